@@ -6,6 +6,7 @@ import (
 	"sort"
 	"strings"
 	"sync"
+	"unicode/utf8"
 
 	"verif/harness/pat"
 )
@@ -136,6 +137,13 @@ func (r *Resolver) resolve(C []*pat.Pattern, i int, rest string, ps []kv) []Res 
 			key := p.Atoms[i].P.Token + "\x00END"
 			if len(p.Atoms) > i+1 {
 				key = p.Atoms[i].P.Token + "\x00" + string(p.Atoms[i+1].B)
+				if kind == pat.Regex {
+					// the literal text behind a regexp parameter is part of its expression and is only ever shared in whole
+					// characters (an expression cannot end inside one): two characters with the same lead byte are two siblings
+					if _, n := utf8.DecodeRuneInString(p.LitRun(i + 1)); n > 1 {
+						key = p.Atoms[i].P.Token + "\x00" + p.LitRun(i + 1)[:n]
+					}
+				}
 			}
 			if groups[key] == nil {
 				order = append(order, key)
@@ -162,6 +170,11 @@ func (r *Resolver) resolve(C []*pat.Pattern, i int, rest string, ps []kv) []Res 
 				suffix = g[0].LitRun(i + 1)
 				for _, p := range g[1:] {
 					suffix = lcp(suffix, p.LitRun(i+1))
+				}
+				if kind == pat.Regex {
+					for len(suffix) > 0 && len(suffix) < len(g[0].LitRun(i+1)) && !utf8.RuneStart(g[0].LitRun(i + 1)[len(suffix)]) {
+						suffix = suffix[:len(suffix)-1]
+					}
 				}
 			}
 			v, ok := r.capture(pm, suffix, isEnd, rest)
